@@ -855,7 +855,7 @@ int main(int argc, char **argv) {
 	uint64_t only = vh::argU64(argc, argv, 5, ~0ull);   // replay a single case id
 	std::ios::sync_with_stdio(false);
 	std::cout << "# prop=C09 seed=" << seed << " mode=" << mode << " param=" << param << '\n';
-	Rng master(seed * 0x9E3779B97F4A7C15ull + (mode == "ops" ? 1 : 2));
+	Rng master(vh::hashSeed(seed) + (mode == "ops" ? 1 : 2));
 	for (uint64_t k = 0; k < ncases; k++) {
 		Rng rng = master.fork();
 		if (only != ~0ull && k != only) continue;
